@@ -483,3 +483,31 @@ Proof.
   - intros [f ->]. apply wf_seg_tokens_at.
   - apply wf_seg_inv.
 Qed.
+
+(* ---------------- interface lemmas for the parser-state side (closing a rule, tagging the last node) ---------------- *)
+
+Lemma wfq_intro bounds len f :
+  chain 0 (fposl f) -> Forall (pos_ok bounds len) (fposl f) -> wfq bounds len (tokens_of f).
+Proof. intros C Fo. apply wfq_of_forest. split; assumption. Qed.
+
+(* a closed rule: Start at index b' = b + 2|f|, its children after it, then the End *)
+Lemma tokens_at_snoc b f r tg s e ch :
+  tokens_at b (f ++ [Node r tg s e ch]) =
+  tokens_at b f ++ QStart (S (b + 2 * fsize f) + 2 * fsize ch) s :: tokens_at (S (b + 2 * fsize f)) ch
+               ++ [QEnd (b + 2 * fsize f) r tg e].
+Proof. rewrite tokens_at_app, tokens_at_cons. cbn [tokens_at]. reflexivity. Qed.
+
+(* tag_node rewrites the tag of the last End token *)
+Lemma tokens_at_retag_last b f r tg tg' s e ch :
+  tokens_at b (f ++ [Node r tg' s e ch]) =
+  removelast (tokens_at b (f ++ [Node r tg s e ch])) ++ [QEnd (b + 2 * fsize f) r tg' e].
+Proof.
+  rewrite !tokens_at_snoc.
+  replace (tokens_at b f ++ QStart (S (b + 2 * fsize f) + 2 * fsize ch) s :: tokens_at (S (b + 2 * fsize f)) ch ++ [QEnd (b + 2 * fsize f) r tg e])
+    with ((tokens_at b f ++ QStart (S (b + 2 * fsize f) + 2 * fsize ch) s :: tokens_at (S (b + 2 * fsize f)) ch) ++ [QEnd (b + 2 * fsize f) r tg e])
+    by (rewrite <- app_assoc; reflexivity).
+  rewrite removelast_last, <- app_assoc. reflexivity.
+Qed.
+
+Lemma fposl_snoc f r tg s e ch : fposl (f ++ [Node r tg s e ch]) = fposl f ++ s :: fposl ch ++ [e].
+Proof. rewrite fposl_app, fposl_cons. cbn [fposl]. reflexivity. Qed.
